@@ -1,5 +1,6 @@
 import GramModel.Check
 import GramModel.Props.C05
+import GramModel.Lemmas.StoreMono
 
 /-!
 # C12 — unification succeeds only with a consistent, well-scoped solution
@@ -9,6 +10,9 @@ import GramModel.Props.C05
 def C12_store_monotone_stmt : Prop :=
   ∀ (fuel : Nat) (a b : Tm) (res : Bool) (s s' : St), unifyS fuel a b s = .ok res s' →
     storeExtends s.store s'.store
+theorem C12_store_monotone : C12_store_monotone_stmt := by
+  intro fuel a b res s s' h
+  exact ((StoreMono.unifyS_le fuel a b).out _ _ _ h).1
 
 /-- Weak-head normalisation never returns a group (the `panic!` arm of `unify` is unreachable). -/
 def C12_whnf_never_let_stmt : Prop :=
